@@ -13,9 +13,13 @@
      C01_far_convex_polygons_disjoint): two placed copies share NO interior point, up to nesting;
    - C01_polygon_closed / C01_polygon_convex: the built-in regular polygon LineShape::polygon(n) (the model's
      `polygon`, compared with the code's items on every case) IS closed and convex for every n >= 3, so
-     C01_scored_regular_polygon_packing_no_overlap has no premise about the shape left. *)
+     C01_scored_regular_polygon_packing_no_overlap has no premise about the shape left;
+   - C01_regular_polygons_cannot_nest: two placed copies of a regular polygon cannot be nested (a point strictly
+     inside a convex polygon is strictly nearer to the centre than its farthest vertex; the vertex directions
+     of a regular polygon sum to zero), hence C01_scored_regular_polygon_packing_disjoint: in a scored state of
+     regular polygons NO two placed copies - any pair, any lattice translate - share an interior point. *)
 From Coq Require Import ZArith List Bool Reals Lra. Import ListNotations.
-From PV Require Import Num NumR model.Geom proofs.LatticeFacts proofs.SiteFacts proofs.OverlapFacts proofs.ConvexFacts proofs.ShapeFacts proofs.EnclosedFacts proofs.PackingFacts proofs.PolygonFacts proofs.RadiusFacts proofs.PolygonPacking.
+From PV Require Import Num NumR model.Geom proofs.LatticeFacts proofs.SiteFacts proofs.OverlapFacts proofs.ConvexFacts proofs.ShapeFacts proofs.EnclosedFacts proofs.PackingFacts proofs.PolygonFacts proofs.RadiusFacts proofs.PolygonPacking proofs.NoNesting.
 
 Theorem C01_scored_disc_packing_has_no_overlap :
   forall (st : pstateR) (l : list discR), wf_state st -> rigid_inputs st -> p_shape NumR st =
@@ -186,4 +190,31 @@ Theorem C01_scored_regular_polygon_packing_no_overlap :
     strictly_inside (-1 * det2 (copy st i)) P (seg_start f)).
 Proof. exact scored_regular_polygon_packing_no_overlap. Qed.
 Print Assumptions C01_scored_regular_polygon_packing_no_overlap.
+
+Theorem C01_scored_regular_polygon_packing_disjoint :
+  forall (st : pstateR) (n : nat) (fmin_ : R), 3 <= n -> wf_state st -> rigid_inputs st ->
+    p_shape NumR st = Poly (polygon NumR PI sin cos n) -> p_radius NumR st = shape_radius NumR
+    fmin_ (p_shape NumR st) -> packed_score NumR st <> None -> forall (i j : nat) (a b : Z), i <
+    length (p_syms NumR st) -> j < length (p_syms NumR st) -> ~ (i = j /\ a = 0%Z /\ b = 0%Z) ->
+    let l := polygon NumR PI sin cos n in forall x : pt, ~ (strictly_inside (-1 * det2 (copy st
+    i)) (placed_poly (copy st i) l) x /\ strictly_inside (-1 * det2 (image st j a b))
+    (placed_poly (image st j a b) l) x).
+Proof. exact scored_regular_polygon_packing_disjoint. Qed.
+Print Assumptions C01_scored_regular_polygon_packing_disjoint.
+
+Theorem C01_regular_polygons_cannot_nest :
+  forall (n : nat) (t1 t2 : tfR), 3 <= n -> affine_row t1 -> rigid t1 -> affine_row t2 -> rigid
+    t2 -> let l := polygon NumR PI sin cos n in ~ (forall f : segR, In f (placed_poly t2 l) ->
+    strictly_inside (-1 * det2 t1) (placed_poly t1 l) (seg_start f)).
+Proof. exact regular_polygons_cannot_nest. Qed.
+Print Assumptions C01_regular_polygons_cannot_nest.
+
+Theorem C01_inside_strictly_within_radius :
+  forall (sigma : R) (P : list segR) (c x : pt) (Rad : R), convex sigma P -> closed P -> P <> []
+    -> (0 <= Rad)%R -> (forall e : segR, In e P -> ((fst (seg_start e) - fst c) * (fst
+    (seg_start e) - fst c) + (snd (seg_start e) - snd c) * (snd (seg_start e) - snd c) <= Rad *
+    Rad)%R) -> strictly_inside sigma P x -> ((fst x - fst c) * (fst x - fst c) + (snd x - snd c)
+    * (snd x - snd c) < Rad * Rad)%R.
+Proof. exact inside_strictly_within_radius. Qed.
+Print Assumptions C01_inside_strictly_within_radius.
 
